@@ -137,6 +137,10 @@ def make(i, base_seed, tier):
         faults_desc = [{"kind": rng.choice(["nack", "fwd"]), "pos": rng.choice([0, 1])}] if rng.random() < 0.5 else []
         cross = {"from": 0o11, "to": rng.choice([0o3, 0o33]), "delay_ms": rng.choice([0, 0, 1, 1, 2, 3, 8, 20]), "type": rng.choice([65, 90, 127]),
                  "slow_sender": rng.random() < 0.6}
+        if stream(seed, "busy").random() < 0.3:
+            cross["busy_ms"] = stream(seed, "busy2").choice([2, 3, 5, 8])
+            cross["delay_ms"] = 0
+            cross["type"] = stream(seed, "busy3").choice([10, 65, 90])
         xr = stream(seed, "ext")
         if xr.random() < 0.5:
             # explicit fault: from the moment the sender's radio stores the relayed frame its own transmissions are lost for a few
@@ -262,6 +266,13 @@ def _run(scn, w, net, res):
         from circuitpython_nrf24l01.network.structs import RF24NetworkHeader, RF24NetworkFrame
         if mode == "multicast":
             return node.multicast(data, typ, netref.level(dst))
+        cr_ = scn.get("cross")
+        if cr_ and cr_.get("busy_ms"):
+            # the sender's application is busy for a moment right before it writes: the frame it has to pass on for its descendant is
+            # already waiting in its radio when write() begins
+            import circuitpython_nrf24l01.network.mixins as mx__
+            mx__.time.sleep(cr_["busy_ms"] / 1000)
+            sim.count("write_begins_with_a_frame_to_relay_waiting")
         hd = RF24NetworkHeader(dst if mode == "unicast" else path[1], typ)
         if scn.get("stale_from") is not None:
             hd.from_node = scn["stale_from"]     # a re-used frame object still carrying another node's address
@@ -356,7 +367,7 @@ def _run(scn, w, net, res):
     ard = ((origin.radio.r[4] >> 4) + 1) * 250 * US
     cyc = 130 * US + (1 + arc) * (ard + 500 * US)
     spi = origin.mcu.spi_overhead + origin.mcu.spi_jitter + 40 * origin.mcu.byte_ns
-    bound = 2 * cyc + scn["tx_timeout"] * MS * 1.05 + rt_ns * 1.05 + 400 * spi + 10 * MS
+    bound = 2 * cyc + scn["tx_timeout"] * MS * 1.05 + rt_ns * 1.05 + 400 * spi + 10 * MS + ((cross or {}).get("busy_ms", 0) + 1) * MS * (1 if cross else 0)
     if c.t1 - c.t0 > bound:
         res.add("bounded", dict(sig, kind="too_long"), "write() took %d us, bound %d us (tx_timeout %d ms, route_timeout %d ms)"
                 % ((c.t1 - c.t0) // US, bound // US, scn["tx_timeout"], scn["route_timeout"]))
